@@ -9,6 +9,7 @@ import ast
 
 from ..core import rule, AnalysisError
 from ..engine import emit, typestate
+from ..engine import pattern as P
 from ..engine.facts import dotted, const, src, walk_func
 from . import skeletons as sk
 from .common import pn, access_paths
@@ -168,11 +169,13 @@ def nextcaller(ctx):
             ctx.check(bool(r) and isinstance(r[-1].value, ast.List), "ccall.returns-list", where, "ccall does not return the list of callables", "returns list")
     # export list starts with body (from the generator's AST)
     fn = S.model.methods["visitCallTag"]
-    ex = [n for n in walk_func(fn) if isinstance(n, ast.Assign) and src(n.targets[0]) == "export"]
+    exv = [env_["x"][1].id for _n, env_ in P.find(fn, "'return [%s]' % ','.join($x)") if isinstance(env_["x"][1], ast.Name)]
+    ex = [n for n in walk_func(fn) if isinstance(n, ast.Assign) and exv and src(n.targets[0]) == exv[0]]
     ctx.check(bool(ex) and isinstance(ex[0].value, ast.List) and [const(e) for e in ex[0].value.elts] == ["body"], "export-body-first", db.where(fn), "body is not the first exported callable", "export = ['body']")
     # the body def sees ccall's `caller`; sibling defs see the frame's caller
-    ad = [n for n in walk_func(fn) if isinstance(n, ast.Call) and dotted(n.func) == "body_identifiers.add_declared"]
-    ctx.check(bool(ad) and const(ad[0].args[0]) == "caller", "body-caller-declared", db.where(fn), "`caller` is not declared for the body of the call", "body_identifiers.add_declared('caller')")
+    decl = {env_["b"][0] for _n, env_ in P.find(fn, "$b.add_declared('caller')")}
+    used = {env_["b"][0] for _n, env_ in P.find(fn, "self.write_variable_declares($b)")}
+    ctx.check(bool(decl & used), "body-caller-declared", db.where(fn), "`caller` is not declared for the body of the call", "body_identifiers.add_declared('caller')")
 
 
 @rule("C05.signature-fields", min_instances=12)
